@@ -179,25 +179,28 @@ class Gen:
         self.closed = []
         return self._expr(depth, False)
 
-    def _cls(self):
+    CLASS_ESCAPES = ["d", "s", "w", "n", "D", "S", "W", "p{Lu}", "p{Ll}", "P{L}", "p{L}", "i", "c", "p{Nd}", "P{Lu}"]
+
+    def _cls(self, depth=0):
+        """('cls', negated, items, sub): items are ('c', ch) | ('r', a, b) | ('e', escape name)"""
         r = self.r
         items = []
         for _ in range(r.randint(1, 3)):
             k = r.random()
             if k < 0.5:
-                items.append(esc_lit(r.choice(self.alpha), True))
+                items.append(("c", r.choice(self.alpha)))
             elif k < 0.8:
                 a, b = sorted([r.choice(self.alpha), r.choice(self.alpha)])
-                items.append(esc_lit(a, True) + "-" + esc_lit(b, True))
+                items.append(("r", a, b))
             elif self.escapes:
-                items.append(r.choice(["\\d", "\\s", "\\w", "\\n", "\\D", "\\p{Lu}", "\\P{L}", "\\i", "\\c"]))
+                items.append(("e", r.choice(self.CLASS_ESCAPES)))
             else:
-                items.append(esc_lit(r.choice(self.alpha), True))
-        neg = "^" if r.random() < 0.25 else ""
-        sub = ""
-        if r.random() < 0.15:
-            sub = "-[" + esc_lit(r.choice(self.alpha), True) + "]"
-        return "[" + neg + "".join(items) + sub + "]"
+                items.append(("c", r.choice(self.alpha)))
+        neg = r.random() < 0.25
+        sub = None
+        if r.random() < 0.15 and depth < 2:
+            sub = self._cls(depth + 1) if r.random() < 0.5 else ("cls", False, [("c", r.choice(self.alpha))], None)
+        return ("cls", neg, items, sub)
 
     def _atom(self):
         r = self.r
@@ -207,9 +210,11 @@ class Gen:
         if k < 0.62:
             return ("dot",)
         if k < 0.80 and self.allow_class:
-            return ("cls", self._cls())
+            return self._cls()
         if k < 0.86 and self.escapes:
-            return ("esc", r.choice(["\\d", "\\s", "\\w", "\\n", "\\S", "\\W", "\\p{Ll}", "\\.", "\\\\", "\\(", "\\*"]))
+            if r.random() < 0.3:
+                return ("lit", r.choice(".\\(*+?[]{}|^$-"))     # escaped metacharacter as a literal
+            return ("esc", r.choice(["d", "s", "w", "n", "S", "W", "p{Ll}", "p{Lu}", "D", "i", "c"]))
         if k < 0.93 and self.allow_backref and self.closed:
             return ("backref", r.choice(self.closed))
         if self.allow_anchor:
@@ -274,9 +279,9 @@ def render(node, noncap=True):
     if t == "eol":
         return "$"
     if t == "cls":
-        return node[1]
+        return render_cls(node)
     if t == "esc":
-        return node[1]
+        return "\\" + node[1]
     if t == "backref":
         return "\\" + str(node[1])
     if t == "grp":
@@ -301,6 +306,23 @@ def render(node, noncap=True):
             s = "(?:" + s + ")"
         return s + node[5] + ("" if node[4] else "?")
     raise ValueError(t)
+
+
+def render_cls(node):
+    _, neg, items, sub = node
+    out = "[" + ("^" if neg else "")
+    for k, it in enumerate(items):
+        if it[0] == "c":
+            c = it[1]
+            # a hyphen is written escaped; '^' first would negate, so escape it too
+            out += esc_lit(c, True)
+        elif it[0] == "r":
+            out += esc_lit(it[1], True) + "-" + esc_lit(it[2], True)
+        else:
+            out += "\\" + it[1]
+    if sub is not None:
+        out += "-" + render_cls(sub)
+    return out + "]"
 
 
 def walk(node):
